@@ -25,6 +25,8 @@ class FxModel(Model, IDecodable):
     def decode(params):
         _emit("model")
         m = FxModel(seed=params.get("seed"))
+        if params.get("closed"):
+            m.complete()          # a model may be handed over already complete (it is then falsy: bool(model) is is_running())
         CURRENT[0] = m
         return m
 
